@@ -6,14 +6,19 @@ C44 — Each workload interface carries exactly the state of its preferred endpo
 The full-strength statement (`IfaceStateEqSpec`: after every history every interface name carries
 exactly the chains and routes of the smallest live endpoint id claiming it, and nothing otherwise;
 hence the result depends only on the live endpoints, not on the update order) is FALSE of the
-current code.  Three distinct failing shapes are proved below by concrete histories (each is also a
-replay on the real endpointManager: corpus/C44/d1…, d2…, d3…), all of them involve a live endpoint
-changing its interface name.  Proved for ALL histories without such renames
-(`iface_state_eq_spec_partial`, `order_independent_partial`): every interface name carries exactly
-the chains of the minimum live endpoint id claiming it, routes iff that endpoint is admin up, and
-nothing when no live endpoint claims it; hence the programmed state depends only on the live
-endpoints.  Proved for all histories whatsoever (`ifaceToID_consistent`): the name→id map only
-ever points at active endpoints that carry that name.
+current code: two failing shapes remain, both need a LIVE endpoint to change its interface name
+(D1 `rename_does_not_promote`, D3 `rename_onto_held_iface_keeps_old_state`; replays corpus/C44/d1…, d3…).
+D2 (stale shadow entry re-promoted) and D4 (a promotion overwrote a pending update/removal in the
+same batch) were fixed in /repo (commit "fix: endpoint manager must not resurrect or re-promote stale
+shadowed workload endpoints"); their histories are kept as regression examples
+(`d2_history_now_correct`, `d4_batch_now_correct`; corpus/C44/d2…, d4…).
+
+Proved for ALL histories of BATCHES (any number of updates/removals per CompleteDeferredWork, processed
+in any order) in which no endpoint that is live at the start of a batch changes its interface name:
+`iface_state_eq_spec_batches_partial`, `order_independent_batches_partial` — every interface name
+carries exactly the chains of the minimum live endpoint id claiming it, routes iff that endpoint is
+admin up, nothing when no live endpoint claims it; `iface_state_eq_spec_partial` etc. are the
+single-update corollaries.  Proved for all histories whatsoever: `ifaceToID_consistent`.
 -/
 namespace CalicoVerif.C44
 open CalicoVerif.C18 (GoMap get set del get_set get_del)
@@ -37,16 +42,12 @@ theorem rename_does_not_promote :
     specChains (live ops) 0 = some ⟨1, true, 2⟩ ∧ get (run ops).chains 0 = none ∧
     get (run ops).routes 0 = none ∧ get (run ops).shadowed 1 = some ⟨0, true, 2⟩ := by decide
 
-/-- D2. Stale shadow entry re-promoted: 1 is shadowed on iface 0, then updated onto free iface 1 (it
-becomes active there but its old shadow entry stays); removing 0 re-promotes the STALE entry:
-1 is moved back to iface 0 with its old data 2 and iface 1 — the only interface a live endpoint
-claims — is left with nothing. -/
-theorem stale_shadow_repromoted :
+/-- D2 (fixed): 1 is shadowed on iface 0, then updated onto free iface 1; activating it now drops its
+shadow copy, so removing 0 no longer drags 1 back to iface 0 with stale data. -/
+theorem d2_history_now_correct :
     let ops := [Op.update 0 ⟨0, true, 1⟩, .update 1 ⟨0, true, 2⟩, .update 1 ⟨1, true, 3⟩, .remove 0]
-    get (live ops) 1 = some ⟨1, true, 3⟩ ∧ get (live ops) 0 = none ∧
-    specChains (live ops) 1 = some ⟨1, true, 3⟩ ∧ get (run ops).chains 1 = none ∧
-    specChains (live ops) 0 = none ∧ get (run ops).chains 0 = some ⟨1, true, 2⟩ ∧
-    get (run ops).routes 0 = some (1, 2) := by decide
+    get (run ops).chains 1 = specChains (live ops) 1 ∧ get (run ops).chains 1 = some ⟨1, true, 3⟩ ∧
+    get (run ops).chains 0 = none ∧ get (run ops).routes 0 = none ∧ get (run ops).shadowed 1 = none := by decide
 
 /-- D3. Rename onto a held interface keeps the old state: active endpoint 1 (iface 1) is updated to
 claim iface 0, held by the preferred endpoint 0: 1 is shadowed, but iface 1 — which no live
@@ -63,14 +64,19 @@ theorem iface_state_eq_spec_false : ¬ IfaceStateEqSpec := by
   revert this
   decide
 
-/-- …and so is order independence: the D2 history and the single update `1 ↦ iface 1` leave the same
-live endpoints but different dataplane state. -/
+/-- …and so is order independence: the D1 history and the two plain updates leave the same live
+endpoints but different dataplane state. -/
 theorem order_independent_false : ¬ OrderIndependent := by
   intro h
-  have hl : live [Op.update 0 ⟨0, true, 1⟩, .update 1 ⟨0, true, 2⟩, .update 1 ⟨1, true, 3⟩, .remove 0] =
-      live [Op.update 1 ⟨1, true, 3⟩] := by decide
-  have := h [Op.update 0 ⟨0, true, 1⟩, .update 1 ⟨0, true, 2⟩, .update 1 ⟨1, true, 3⟩, .remove 0]
-    [Op.update 1 ⟨1, true, 3⟩] (by intro id; rw [hl]) 1
+  have hl : ∀ id, get (live [Op.update 0 ⟨0, true, 1⟩, .update 1 ⟨0, true, 2⟩, .update 0 ⟨1, true, 3⟩]) id =
+      get (live [Op.update 1 ⟨0, true, 2⟩, .update 0 ⟨1, true, 3⟩]) id := by
+    intro id
+    have e1 : live [Op.update 0 ⟨0, true, 1⟩, .update 1 ⟨0, true, 2⟩, .update 0 ⟨1, true, 3⟩] =
+        [(0, ⟨1, true, 3⟩), (1, ⟨0, true, 2⟩)] := by decide
+    have e2 : live [Op.update 1 ⟨0, true, 2⟩, .update 0 ⟨1, true, 3⟩] = [(0, ⟨1, true, 3⟩), (1, ⟨0, true, 2⟩)] := by
+      decide
+    rw [e1, e2]
+  have := h _ _ hl 0
   revert this
   decide
 
@@ -153,8 +159,8 @@ theorem consistent_activate (m : Mgr) (id : Nat) (w : Ep) (h : Consistent m) :
 theorem consistent_shadowed (m : Mgr) (sh : GoMap Nat Ep) (h : Consistent m) :
     Consistent { m with shadowed := sh } := h
 
-theorem consistent_process (m : Mgr) (id : Nat) (w : Option Ep) (h : Consistent m) :
-    Consistent (m.process id w).1 := by
+theorem consistent_process (m : Mgr) (pd : Pending) (id : Nat) (w : Option Ep) (h : Consistent m) :
+    Consistent (m.process pd id w).1 := by
   unfold Mgr.process
   cases w with
   | none =>
@@ -220,14 +226,14 @@ theorem ifaceToID_consistent (ops : List Op) : Consistent (run ops) := by
     have hres : ∀ id w, Consistent (m.resolve id w) := by
       intro id w
       unfold Mgr.resolve
-      have h1 := consistent_process m id w h
+      have h1 := consistent_process m [] id w h
       split
       · rename_i m' b e heq
-        have : m' = (m.process id w).1 := by rw [heq]
+        have : m' = (m.process [] id w).1 := by rw [heq]
         subst this
-        exact consistent_process _ b (some e) h1
+        exact consistent_process _ [] b (some e) h1
       · rename_i m' heq
-        have : m' = (m.process id w).1 := by rw [heq]
+        have : m' = (m.process [] id w).1 := by rw [heq]
         subst this
         exact h1
     cases op with
@@ -236,47 +242,160 @@ theorem ifaceToID_consistent (ops : List Op) : Consistent (run ops) := by
 
 
 
-/-- **The property, for all histories in which no live endpoint changes its interface name**
-(endpoints may be updated, go admin down/up, be removed and re-created under another name): every
+/-- **The property, for all histories of batches in which no live endpoint changes its interface
+name** — any number of updates and removals per CompleteDeferredWork, processed in ANY order: every
 interface name carries exactly the policy chains of the smallest live endpoint id claiming it, its
-routes iff that endpoint is admin up, and nothing at all if no live endpoint claims it. -/
+routes iff that endpoint is admin up, and nothing at all if no live endpoint claims it; and the
+name→endpoint dispatch map is exactly "the preferred live endpoint of each name". -/
+theorem iface_state_eq_spec_batches_partial (bs : List Batch) (m : Mgr) (hr : ReachFrom Mgr.new bs m)
+    (h : NoRenameBsFrom [] bs) (name : Nat) :
+    get m.chains name = specChains (liveBs bs) name ∧
+    get m.routes name = specRoutes (liveBs bs) name ∧
+    get m.ifaceToID name = (preferred (liveBs bs) name).map (·.1) := by
+  obtain ⟨g, hl⟩ := good_reach bs Mgr.new [] good_new C18.nodupKeys_nil h m hr
+  have g' : Good m (get (liveBs bs)) [] := g
+  have hl' : C18.NodupKeys (liveBs bs) := hl
+  refine ⟨(chains_of_good _ _ g' hl' name).1, (chains_of_good _ _ g' hl' name).2, ?_⟩
+  unfold preferred
+  rw [best_of_good _ _ g' hl' name]
+  cases hi : get m.ifaceToID name with
+  | none => rfl
+  | some i =>
+    obtain ⟨e, hact, _⟩ := g'.b1 name i hi
+    simp [g'.a1 i e hact]
+
+/-- **Order independence, same domain**: two rename-free batch histories (whatever the order inside the
+batches and however the updates are grouped into batches) that leave the same live endpoints leave
+the same chains and routes on every interface. -/
+theorem order_independent_batches_partial (bs₁ bs₂ : List Batch) (m₁ m₂ : Mgr)
+    (r₁ : ReachFrom Mgr.new bs₁ m₁) (r₂ : ReachFrom Mgr.new bs₂ m₂)
+    (h₁ : NoRenameBsFrom [] bs₁) (h₂ : NoRenameBsFrom [] bs₂)
+    (hl : ∀ id, get (liveBs bs₁) id = get (liveBs bs₂) id) (name : Nat) :
+    get m₁.chains name = get m₂.chains name ∧ get m₁.routes name = get m₂.routes name := by
+  obtain ⟨_, n1⟩ := good_reach bs₁ Mgr.new [] good_new C18.nodupKeys_nil h₁ m₁ r₁
+  obtain ⟨_, n2⟩ := good_reach bs₂ Mgr.new [] good_new C18.nodupKeys_nil h₂ m₂ r₂
+  have e1 := iface_state_eq_spec_batches_partial bs₁ m₁ r₁ h₁ name
+  have e2 := iface_state_eq_spec_batches_partial bs₂ m₂ r₂ h₂ name
+  rw [e1.1, e2.1, e1.2.1, e2.2.1]
+  unfold specChains specRoutes preferred
+  have hb : bestShadowed (liveBs bs₁) name = bestShadowed (liveBs bs₂) name :=
+    bestShadowed_congr _ _ n1 n2 hl name
+  rw [hb]
+  cases bestShadowed (liveBs bs₂) name with
+  | none => exact ⟨rfl, rfl⟩
+  | some i => simp [hl i]
+
+/-! #### single-update corollaries -/
+
+theorem ra_nil (f : Nat) (m : Mgr) : Mgr.resolveAll f m [] = [m] := by cases f <;> rfl
+
+theorem process_update_queues_nothing (m : Mgr) (pd : Pending) (id : Nat) (w : Ep) :
+    (m.process pd id (some w)).2 = none := by
+  unfold Mgr.process
+  simp only
+  split
+  · split <;> rfl
+  · rfl
+
+theorem ra_one (f : Nat) (m : Mgr) (id : Nat) (w : Option Ep) :
+    Mgr.resolveAll (f + 1) m [(id, w)] = Mgr.resolveAll f (m.process [] id w).1
+      (match (m.process [] id w).2 with
+       | some (b, e) => [(b, some e)]
+       | none => []) := by
+  simp only [Mgr.resolveAll, List.flatMap_cons, List.flatMap_nil, List.append_nil]
+  have hd : C18.del [(id, w)] id = [] := by simp [C18.del]
+  rw [hd]
+  first
+    | rfl
+    | (congr 1
+       cases (m.process [] id w).2 with
+       | none => rfl
+       | some be => simp [C18.set, C18.del])
+
+/-- With ONE pending update the all-orders semantics is the single-update `resolve`. -/
+theorem batch_single (m : Mgr) (id : Nat) (w : Option Ep) : m.batch [(id, w)] = [m.resolve id w] := by
+  have hp : mkPending [(id, w)] = [(id, w)] := by simp [mkPending, C18.set, C18.del]
+  unfold Mgr.batch
+  simp only [hp, List.length_cons, List.length_nil]
+  rw [show 2 * (0 + 1) + 2 = 3 + 1 from rfl, ra_one]
+  unfold Mgr.resolve
+  cases h : (m.process [] id w).2 with
+  | none =>
+    have : m.process [] id w = ((m.process [] id w).1, none) := by rw [← h]
+    rw [this]; simp only [ra_nil]
+  | some be =>
+    obtain ⟨b, e⟩ := be
+    have : m.process [] id w = ((m.process [] id w).1, some (b, e)) := by rw [← h]
+    rw [this]; simp only
+    rw [ra_one, process_update_queues_nothing]
+    simp only [ra_nil]
+
+theorem reach_run (ops : List Op) (m : Mgr) : ReachFrom m (ops.map Op.toBatch) (ops.foldl Mgr.step m) := by
+  induction ops generalizing m with
+  | nil => rfl
+  | cons op r ih =>
+    simp only [List.map_cons, List.foldl_cons, ReachFrom]
+    refine ⟨m.step op, ?_, ih _⟩
+    cases op with
+    | update id w => simp [Op.toBatch, Mgr.step, batch_single]
+    | remove id => simp [Op.toBatch, Mgr.step, batch_single]
+
+theorem liveB_toBatch (l : GoMap Nat Ep) (op : Op) : liveB l op.toBatch = liveStep l op := by
+  cases op <;> simp [Op.toBatch, liveB, mkPending, applyEntry, liveStep, C18.set, C18.del]
+
+theorem live_eq_liveBs (ops : List Op) : liveBs (ops.map Op.toBatch) = live ops := by
+  unfold liveBs live
+  generalize ([] : GoMap Nat Ep) = l
+  induction ops generalizing l with
+  | nil => rfl
+  | cons op r ih => simp only [List.map_cons, List.foldl_cons, liveB_toBatch, ih]
+
+theorem noRename_toBatches (ops : List Op) (l : GoMap Nat Ep) (h : NoRenameFrom l ops) :
+    NoRenameBsFrom l (ops.map Op.toBatch) := by
+  induction ops generalizing l with
+  | nil => trivial
+  | cons op r ih =>
+    cases op with
+    | update id w =>
+      refine ⟨?_, ?_⟩
+      · intro id' w' hg e he
+        simp only [Op.toBatch, mkPending, List.foldl_cons, List.foldl_nil, C18.set, C18.del, List.filter_nil,
+          C18.get] at hg
+        split at hg
+        · rename_i hid; subst hid; cases hg; exact h.1 e he
+        · cases hg
+      · rw [liveB_toBatch]; exact ih _ h.2
+    | remove id =>
+      refine ⟨?_, ?_⟩
+      · intro id' w' hg e he
+        simp only [Op.toBatch, mkPending, List.foldl_cons, List.foldl_nil, C18.set, C18.del, List.filter_nil,
+          C18.get] at hg
+        split at hg <;> cases hg
+      · rw [liveB_toBatch]; exact ih _ h
+
+/-- The single-update form: histories with one endpoint update per CompleteDeferredWork. -/
 theorem iface_state_eq_spec_partial (ops : List Op) (h : NoRename ops) (name : Nat) :
     get (run ops).chains name = specChains (live ops) name ∧
     get (run ops).routes name = specRoutes (live ops) name := by
-  obtain ⟨g, hl⟩ := good_run ops Mgr.new [] good_new C18.nodupKeys_nil h
-  exact chains_of_good _ _ g hl name
+  have := iface_state_eq_spec_batches_partial (ops.map Op.toBatch) (run ops) (reach_run ops Mgr.new)
+    (noRename_toBatches ops [] h) name
+  rw [live_eq_liveBs] at this
+  exact ⟨this.1, this.2.1⟩
 
-/-- …and the name→endpoint dispatch map is exactly "the preferred live endpoint of each name". -/
 theorem dispatch_eq_spec_partial (ops : List Op) (h : NoRename ops) (name : Nat) :
     get (run ops).ifaceToID name = (preferred (live ops) name).map (·.1) := by
-  obtain ⟨g0, hl0⟩ := good_run ops Mgr.new [] good_new C18.nodupKeys_nil h
-  have g : Good (run ops) (live ops) := g0
-  have hl : C18.NodupKeys (live ops) := hl0
-  unfold preferred
-  rw [best_of_good _ _ g hl name]
-  cases hi : get (run ops).ifaceToID name with
-  | none => rfl
-  | some i =>
-    obtain ⟨e, hact, _⟩ := g.b1 name i hi
-    simp [g.a1 i e hact]
+  have := iface_state_eq_spec_batches_partial (ops.map Op.toBatch) (run ops) (reach_run ops Mgr.new)
+    (noRename_toBatches ops [] h) name
+  rw [live_eq_liveBs] at this
+  exact this.2.2
 
-/-- **Order independence, same domain**: two rename-free histories that leave the same live
-endpoints leave the same chains and routes on every interface. -/
 theorem order_independent_partial (ops₁ ops₂ : List Op) (h₁ : NoRename ops₁) (h₂ : NoRename ops₂)
     (hl : ∀ id, get (live ops₁) id = get (live ops₂) id) (name : Nat) :
     get (run ops₁).chains name = get (run ops₂).chains name ∧
     get (run ops₁).routes name = get (run ops₂).routes name := by
-  obtain ⟨_, n1⟩ := good_run ops₁ Mgr.new [] good_new C18.nodupKeys_nil h₁
-  obtain ⟨_, n2⟩ := good_run ops₂ Mgr.new [] good_new C18.nodupKeys_nil h₂
-  rw [(iface_state_eq_spec_partial ops₁ h₁ name).1, (iface_state_eq_spec_partial ops₂ h₂ name).1,
-    (iface_state_eq_spec_partial ops₁ h₁ name).2, (iface_state_eq_spec_partial ops₂ h₂ name).2]
-  unfold specChains specRoutes preferred
-  have hb : bestShadowed (live ops₁) name = bestShadowed (live ops₂) name :=
-    bestShadowed_congr _ _ n1 n2 hl name
-  rw [hb]
-  cases bestShadowed (live ops₂) name with
-  | none => exact ⟨rfl, rfl⟩
-  | some i => simp [hl i]
+  apply order_independent_batches_partial (ops₁.map Op.toBatch) (ops₂.map Op.toBatch) _ _
+    (reach_run ops₁ Mgr.new) (reach_run ops₂ Mgr.new) (noRename_toBatches ops₁ [] h₁) (noRename_toBatches ops₂ [] h₂)
+  intro id; rw [live_eq_liveBs, live_eq_liveBs]; exact hl id
 
 /-- Non-vacuity of the no-rename domain: a history with shadowing, an admin-down update, a removal that
 promotes, and a removal + re-creation under another interface name. -/
@@ -286,54 +405,27 @@ example : NoRename [Op.update 2 ⟨0, true, 1⟩, .update 0 ⟨0, true, 2⟩, .u
 
 /-! ### Several updates pending at once -/
 
-theorem process_update_queues_nothing (m : Mgr) (id : Nat) (w : Ep) : (m.process id (some w)).2 = none := by
-  unfold Mgr.process
-  simp only
-  split
-  · split <;> rfl
-  · rfl
-
-theorem ra_nil (f : Nat) (m : Mgr) : Mgr.resolveAll f m [] = [m] := by cases f <;> rfl
-
-theorem ra_one (f : Nat) (m : Mgr) (id : Nat) (w : Option Ep) :
-    Mgr.resolveAll (f + 1) m [(id, w)] = Mgr.resolveAll f (m.process id w).1
-      (match (m.process id w).2 with
-       | some (b, e) => [(b, some e)]
-       | none => []) := by
-  simp only [Mgr.resolveAll, List.flatMap_cons, List.flatMap_nil, List.append_nil]
-  congr 1
-  cases (m.process id w).2 with
-  | none => simp [C18.del]
-  | some be => simp [C18.del, C18.set]
-
-/-- With ONE pending update the all-orders semantics is the single-update `resolve` the theorems are about. -/
-theorem batch_single (m : Mgr) (id : Nat) (w : Option Ep) : m.batch [(id, w)] = [m.resolve id w] := by
-  have hp : mkPending [(id, w)] = [(id, w)] := by simp [mkPending, C18.set, C18.del]
-  unfold Mgr.batch
-  simp only [hp, List.length_cons, List.length_nil]
-  rw [show 2 * (0 + 1) + 2 = 3 + 1 from rfl, ra_one]
-  unfold Mgr.resolve
-  cases h : (m.process id w).2 with
-  | none =>
-    have : m.process id w = ((m.process id w).1, none) := by rw [← h]
-    rw [this]; simp only [ra_nil]
-  | some be =>
-    obtain ⟨b, e⟩ := be
-    have : m.process id w = ((m.process id w).1, some (b, e)) := by rw [← h]
-    rw [this]; simp only
-    rw [ra_one, process_update_queues_nothing]
-    simp only [ra_nil]
-
-/-- D4. In a batch, a promotion overwrites a pending removal: endpoints 0<1 share iface 0 (1 shadowed);
-both are removed before ONE CompleteDeferredWork.  Processing `rm 0` first promotes 1 by writing its
-shadow copy over the pending `rm 1`: the deleted endpoint 1 ends up active with chains and routes.
-Processing `rm 1` first leaves nothing.  Both outcomes are possible; no endpoint is live. -/
-theorem batch_promotion_overwrites_pending_removal :
+/-- D4 (fixed): endpoints 0<1 share iface 0 (1 shadowed); both are removed before ONE
+CompleteDeferredWork.  The promotion scan now skips endpoint 1 (it has its own removal pending), so
+whatever the processing order nothing stays programmed. -/
+theorem d4_batch_now_correct :
     let m := run [Op.update 0 ⟨0, true, 1⟩, .update 1 ⟨0, true, 2⟩]
     let outs := m.batch [(0, none), (1, none)]
-    (outs.map (fun o => get o.chains 0)) = [none, some ⟨1, true, 2⟩] ∧
-    (outs.map (fun o => get o.active 1)) = [none, some ⟨0, true, 2⟩] ∧
-    live [Op.update 0 ⟨0, true, 1⟩, .update 1 ⟨0, true, 2⟩, .remove 0, .remove 1] = [] := by decide
+    outs.length = 2 ∧ (outs.map (fun o => get o.chains 0)) = [none, none] ∧
+    (outs.map (fun o => get o.active 1)) = [none, none] ∧ (outs.map (fun o => o.shadowed)) = [[], []] := by decide
+
+/-- Non-vacuity of the batch domain: a rename-free batch history with a multi-update batch that removes
+the holder and updates the endpoint shadowed behind it. -/
+example : NoRenameBsFrom [] [[(0, some ⟨0, true, 1⟩), (1, some ⟨0, true, 2⟩), (2, some ⟨0, true, 3⟩)],
+    [(0, none), (1, some ⟨0, false, 4⟩)]] := by
+  refine ⟨?_, ?_, trivial⟩
+  · intro id w h e he; simp [C18.get] at he
+  · intro id w h e he
+    simp [mkPending, C18.get, C18.set, C18.del] at h
+    simp [liveB, mkPending, applyEntry, C18.get, C18.set, C18.del] at he
+    by_cases h1 : 1 = id
+    · subst h1; simp at h he; subst h; subst he; rfl
+    · simp [h1] at h
 
 /-- Where shadowing works (no renames): 0<1<2 all claim iface 0; removing the active one promotes the
 smallest waiting id; an admin-down endpoint gets chains but no routes. -/
